@@ -918,6 +918,9 @@ func leafComps(t types.Type) []string {
 	if isBigInt(t) {
 		return []string{regSort("bigval", idxRef, sInt)}
 	}
+	if a, ok := objArray(t); ok {
+		return leafComps(a.Elem())
+	}
 	st := structOf(t)
 	if st == nil {
 		return nil
